@@ -2,6 +2,7 @@ package gosym
 
 import (
 	"fmt"
+	"strings"
 
 	"golang.org/x/tools/go/ssa"
 )
@@ -25,6 +26,14 @@ func (w *World) registerEnv() {
 				return zeroResult(e, fn, a)
 			case "nil-error":
 				return zeroResult(e, fn, a)
+			}
+			if strings.HasPrefix(kind, "call:") {
+				// redirect to a harness function with the same parameters (receiver first)
+				target := e.W.findFunction(kind[5:])
+				if target == nil {
+					e.ooe("stub target %s not found", kind[5:])
+				}
+				return e.callFunc(&FuncV{Fn: target}, a, "stub-call")
 			}
 			e.ooe("unknown stub kind %q for %s", kind, fn)
 			return nil
